@@ -68,9 +68,10 @@ typedef FILE *hdf_file_t;
 #define HI_CREATE(p)      (fopen((p), "wb+"))
 #define HI_READ(f, b, n)  (((size_t)(n) == (size_t)fread((b), 1, (size_t)(n), (f))) ? SUCCEED : FAIL)
 #define HI_WRITE(f, b, n) (((size_t)(n) == (size_t)fwrite((b), 1, (size_t)(n), (f))) ? SUCCEED : FAIL)
-/* read up to n bytes, *got = number delivered; FAIL on an I/O error only, not at the end of the file */
+/* read up to n bytes, *got = number delivered; FAIL on an I/O error of THIS read only (the error indicator of a
+   stream is sticky: an earlier, reported failure must not fail every later read), not at the end of the file */
 #define HI_READ_AVAIL(f, b, n, got)                                                                                  \
-    (*(got) = (int32)fread((b), 1, (size_t)(n), (f)), (ferror(f) ? FAIL : (clearerr(f), SUCCEED)))
+    (clearerr(f), *(got) = (int32)fread((b), 1, (size_t)(n), (f)), (ferror(f) ? FAIL : (clearerr(f), SUCCEED)))
 #define HI_CLOSE(f)       hi_close_stdio(&f)
 #define HI_FLUSH(f)       (fflush(f) == 0 ? SUCCEED : FAIL)
 #define HI_SEEK(f, o)     (fseek((f), (long)(o), SEEK_SET) == 0 ? SUCCEED : FAIL)
